@@ -65,6 +65,7 @@ CHECKS = {
         'level_text': 'every path of the encoded message-consuming functions is explored with all optional elements nil-able; a path ending in a Go panic is a violation; replayed natively.',
         'level_note': SP_ASSERTION_NOTE + FLOW_NOTE,
         'harnesses': [
+            {'name': 'Harness_C09_metadata', 'pkg': 'samlsp', 'replay': 'direct', 'must_reach': ['parsed', 'fetched', 'descriptor'], 'validate_reach': False, 'opts': {'panic_is_violation': True, 'K': 2}},
             {'name': 'Harness_C09_inflate', 'pkg': 'saml', 'replay': 'direct', 'must_reach': ['read'], 'opts': {'panic_is_violation': True}, 'validate_reach': False},
             {'name': 'Harness_C01_encrypted', 'pkg': 'saml', 'replay': 'direct', 'must_reach': ['accepted', 'rejected', 'accepted-by-inner-signature', 'accepted-by-response-signature'], 'validate_labels': ['accepted-by-inner-signature', 'accepted-by-response-signature', 'rejected'], 'label_prefix': 'C09', 'opts': {'K': 1, 'panic_is_violation': True}},
             {'name': 'Harness_C09_artifact_http', 'pkg': 'saml', 'replay': 'direct', 'must_reach': ['accepted', 'rejected'], 'validate_labels': ['accepted', 'rejected'], 'label_prefix': 'C09', 'opts': {'K': 1, 'panic_is_violation': True}},
